@@ -162,6 +162,10 @@ MUTANTS = [
     ("c15-bisect-lo-one", "C15", "scoda/misc/util.py", "    lo = 0\n    hi = len(collection)", "    lo = 1\n    hi = len(collection)", {"BISECT"}),
     ("c04-bisect-wrong-half", "C04", "scoda/misc/util.py", "            hi = mid\n        else:\n            lo = mid + 1", "            lo = mid + 1\n        else:\n            hi = mid", {"ABS-SORTED"}),
     ("c14-normalise-extra-guard", "C14", SEQ, "        if shifted:\n", "        if shifted and interval > 0:\n", {"DELEG"}),
+    ("c01-no-bar-marker", "C01", TOKF, "                    for sequence in sequences:\n                        sequence.add_absolute_message(Message(message_type=MessageType.INTERNAL, time=cur_time))\n", "", {"DUR"}),
+    ("c01-velocity-default-bins", "C01", TOKF, "msg_velocity = self.velocity_bins[bin_velocity(event_pairing[0].velocity, self.velocity_bins)]", "msg_velocity = self.velocity_bins[bin_velocity(event_pairing[0].velocity)]", {"NOTE"}),
+    ("c01-rest-guard-inverted", "C01", TOKF, "            if not cur_time == msg_time:\n                _apply_rest(msg_time - cur_time)", "            if cur_time == msg_time:\n                _apply_rest(msg_time - cur_time)", {"REST"}),
+    ("c01-no-merge", "C01", TOKF, "        sequence_bar = Sequence()\n        sequence_bar.merge(sequences_bar)", "        sequence_bar = Sequence()", {"INPUT"}),
     ("c17-true-on-length-mismatch", "C17", ABS, "        if not len(self_pairings) == len(other_pairings):\n            return False", "        if not len(self_pairings) == len(other_pairings):\n            return True", {"RET", "LEN"}),
     ("c17-type-test-inverted", "C17", ABS, "if self_msg.message_type != other_msg.message_type:", "if self_msg.message_type == other_msg.message_type:", {"RET"}),
     ("c17-default-ignores-channel", "C17", ABS, "ignore_channel: bool = False,\n               ignore_time_signature", "ignore_channel: bool = True,\n               ignore_time_signature", {"RET"}),
